@@ -12,6 +12,16 @@ def hook_commits():
         return []
 
 CHECKS = {
+ "C10": dict(
+    category="exploration", design_ref="DESIGN.md §4 C10",
+    technique="reference RES client cache replaying the events recorded on the connection, compared with a fresh get (canonical JSON); bounded-exhaustive collection pairs + random values and histories",
+    text="store.Handler on a real Service over mockstore and badgerstore, model and collection, no transformer / IDTransformer / projection / custom TransformFuncs (errors, empty rid), with and without Default: a reference client fetches the resource, the store is mutated from a foreign goroutine, every event published for the rid is applied in order with index range checks, and the client must equal a fresh get; create/delete announcements and silence on unchanged representations are asserted. All 14641 ordered pairs of collections of length <=4 over {a,b,c} are run exhaustively (2 configurations quick, 5 thorough), plus random models/collections of primitives, references, soft references and data values, and 12-step histories with a persistent client.",
+    note="Stored values are valid RES values; the reference client is the trusted base."),
+ "C12": dict(
+    category="fault_enumeration", design_ref="DESIGN.md §4 C12",
+    technique="fault injection by SIGKILL at enumerated hook occurrences and random times in a workload process, acknowledgement log + reopen checker, double crashes during recovery",
+    text="A workload process (Init with seeds, creates, updates, deletes incl. of seeds, re-Init, Flush) writes an acknowledgement record after every returned call. A counting run records how often each of 9 kill points fires; every (point, occurrence) is then executed once with SIGKILL at that hit, plus SIGKILL at seed-determined random times and second kills during recovery-time Init/RebuildIndexes. After each kill the directory is reopened: every id and the init marker must equal the state after the last acknowledged operation or after the in-flight one; Init run again must create exactly the missing seeds or nothing; RebuildIndexes then a 150-query battery must agree with the stored values. 4 store configurations (prefix set/empty, typed/untyped, with/without indexes).",
+    note="Process kill only (no power loss); reopened WithTruncate(true); SyncWrites off is sufficient for process kills."),
  "C11": dict(
     category="exploration", design_ref="DESIGN.md §4 C11",
     technique="linearizability checking of recorded store histories with porcupine (per-id partition, transaction-level map model) + open-transaction occupancy monitor + change-callback chain checker + sequential reference-map diff",
